@@ -2,7 +2,7 @@
 # tools/seed_matrix.sh [seed-id ...] : run each seeded change against the quick check(s) of its property on a scratch
 # worktree of /repo (VP_REPO) with evidence redirected (VP_EVIDENCE_DIR), so /repo and /verif/evidence stay untouched.
 # Writes seeded/<id>/detect.log.  Extra properties to try can be listed in seeded/<id>/also (one per line).
-cd /verif || exit 2
+cd "${VERIF_ROOT:-/verif}" || exit 2
 IDS="$@"; [ -n "$IDS" ] || IDS=$(ls seeded)
 for S in $IDS; do
   [ -f seeded/$S/patch.diff ] || continue
@@ -10,7 +10,7 @@ for S in $IDS; do
   WT=/tmp/seedrun/$S; EV=/tmp/seedrun/ev-$S
   rm -rf $WT $EV; mkdir -p /tmp/seedrun
   git -C /repo worktree add -q --detach $WT HEAD || continue
-  if ! git -C $WT apply /verif/seeded/$S/patch.diff; then echo "$S: patch does not apply" > seeded/$S/detect.log; git -C /repo worktree remove --force $WT; continue; fi
+  if ! git -C $WT apply "${VERIF_ROOT:-/verif}/seeded/$S/patch.diff"; then echo "$S: patch does not apply" > seeded/$S/detect.log; git -C /repo worktree remove --force $WT; continue; fi
   : > seeded/$S/detect.log
   for Q in $P $(cat seeded/$S/also 2>/dev/null); do
     OUT=$(VP_REPO=$WT VP_EVIDENCE_DIR=$EV bin/check $Q --tier quick 2>&1); RC=$?
